@@ -51,6 +51,9 @@ CLAIMS = {
  "C11": ("Generated settings and histories (connects, sleeps, outages and recoveries, held connections) executed in real time against the proxy handler with loopback listeners that refuse or accept; a model of remembered failure times, retry-window bounds, active-check convergence and connection-limit occupancy is compared with outcomes and peer counters, away from window edges.",
          "Real clock (guard band 80 ms around window edges, slack >= 1 s on upper bounds); peer counters through an overlay shim; a closed loopback port as an upstream that is down.",
          "property-based testing (rapid) over histories with fault injection; reference model of failure windows and limits"),
+ "C07": ("Differential testing against crypto/tls: ClientHellos produced by real TLS clients under generated configurations (and byte-level mutations that crypto/tls still accepts) are given both to the module's parser/matcher and to Go's TLS server, whose ClientHelloInfo is the reference for server name, ALPN, versions, cipher suites, curves, points and signature schemes, for sni/alpn routing verdicts and for the placeholders.",
+         "crypto/tls (client as generator, server as reference) of the toolchain in use; caddytls' own sni matcher and the module's alpn matcher evaluated on the reference info; parseRawClientHello reached through an overlay export shim.",
+         "property-based testing (rapid); differential oracle (crypto/tls server)"),
 }
 NOT_YET = "check not built yet in this session (planned, see DESIGN.md); not claimed until it is"
 
